@@ -44,6 +44,9 @@ func alphabet(keys []string, thorough bool) []kvh.Op {
 		kvh.Op{Kind: "putmany", Keys: []string{a, b}, Vals: []int{2, 0}, Exps: []int{0, 0}},
 		kvh.Op{Kind: "putmany", Keys: []string{a, a}, Vals: []int{2, 3}, Exps: []int{0, 0}},
 		kvh.Op{Kind: "putmany", Keys: []string{a, b}, Vals: []int{1, 2}, Exps: []int{1, 0}},
+		kvh.Op{Kind: "putmany", Keys: []string{a, a}, Vals: []int{2, 3}, Exps: []int{1, 0}},
+		kvh.Op{Kind: "putmany", Keys: []string{a, a}, Vals: []int{2, 3}, Exps: []int{0, 1}},
+		kvh.Op{Kind: "putmany", Keys: []string{b, a, b}, Vals: []int{2, 2, 3}, Exps: []int{1, 1, 0}},
 		kvh.Op{Kind: "putmany", Keys: []string{last}, Vals: []int{2}, Exps: []int{1}},
 		kvh.Op{Kind: "getmany"},
 		kvh.Op{Kind: "getmany", Keys: []string{a}},
